@@ -480,7 +480,9 @@ class CircuitOperation(ops.Operation):
             args += f'param_resolver={proper_repr(self.param_resolver)},\n'
         if self.parent_path:
             args += f'parent_path={proper_repr(self.parent_path)},\n'
-        if self.use_repetition_ids:
+        if self.use_repetition_ids and self.repetition_ids is None:
+            args += 'use_repetition_ids=True,\n'
+        elif self.use_repetition_ids:
             # Default repetition_ids need not be specified.
             args += f'repetition_ids={proper_repr(self.repetition_ids)},\n'
         if self.repeat_until:
